@@ -7,7 +7,7 @@ FETCH_MAX = "tough::fetch::fetch_max_size"
 
 
 def run(chk, prog):
-    chk.rules_live = ["R1", "R2", "R3", "R4", "R5", "R6"]
+    chk.rules_live = ["R1", "R2", "R3", "R4", "R5", "R6", "R7"]
     chk.explanation = (
         "Dominance rules over the MIR of load_root: the shipped root is self-verified before any "
         "fetch; the assignment that adopts a fetched root is dominated by the Ok edges of "
@@ -134,6 +134,52 @@ def run(chk, prog):
     from .c06 import SubCheck
     from . import c01
     c01.verifier(SubCheck(chk, "R6"), prog, ROOT_VERIFY, "root")
+    r7_file_not_found(chk, prog)
+
+
+def r7_file_not_found(chk, prog):
+    """the walk stops 'at the first version that is unavailable': for file:// repositories the built-in
+    transport reports a missing file — and nothing else — as FileNotFound (the http side of this is
+    C18-R1); otherwise a complete chain ends in an error, or an unreadable file ends the walk silently"""
+    fam = [b for b in prog.bodies.values()
+           if b.path.startswith("<tough::transport::FilesystemTransport as tough::transport::Transport>::fetch")]
+    if not fam:
+        chk.anchor_missing("R7", "<tough::transport::FilesystemTransport as tough::transport::Transport>::fetch")
+        return
+    K = "tough::transport::TransportErrorKind"
+    n = 0
+    for b in fam:
+        ctx = ctx_of(prog, b.path)
+        fnf = [blk.idx for blk in b.blocks for s_ in blk.stmts
+               if s_.k == "assign" and s_.rv.k == "agg" and s_.rv.j.get("adt") == K and s_.rv.j.get("variant") == "FileNotFound"]
+        if not fnf:
+            continue
+        chk.analysed_body(b)
+        n += 1
+        nf_edges, other_edges = [], []
+        for blk in b.blocks:
+            for s_ in blk.stmts:
+                if s_.k == "assign" and s_.rv.k == "discr" and s_.rv.j.get("adt") == "core::io::error::ErrorKind":
+                    src = ctx.origins.of_place(s_.rv.place)
+                    if not (src and all(is_call(o, "std::io::Error::kind", "std::io::error::Error::kind") for o in src)):
+                        continue
+                    for sw in ctx.tracker._switch_on(s_.place.local, blk.idx):
+                        vars_ = s_.rv.j["vars"]
+                        for v, d in sw.term.tv:
+                            (nf_edges if vars_.get(str(v)) == "NotFound" else other_edges).append((sw.idx, d, v))
+                        other_edges.append((sw.idx, sw.term.otherwise, "otherwise"))
+        p = ctx.cfg.witness_path(fnf, nf_edges)
+        chk.require(bool(nf_edges) and p is None, "R7", short_fn(b.path), "file-not-found-only-for-missing-file",
+                    "FilesystemTransport reports FileNotFound on a path that did not see io::ErrorKind::NotFound: an "
+                    "unreadable file would end the root walk as if no newer root existed", site_of(b.span),
+                    path=ctx.describe_path(p))
+        r = ctx.cfg.reach_from_edges(nf_edges) if nf_edges else set()
+        others = [blk.idx for blk in b.blocks for s_ in blk.stmts
+                  if s_.k == "assign" and s_.rv.k == "agg" and s_.rv.j.get("adt") == K and s_.rv.j.get("variant") != "FileNotFound"]
+        chk.require(not (r & set(others)) and bool(r & set(fnf)), "R7", short_fn(b.path), "missing-file-is-file-not-found",
+                    "a missing file is not reported as FileNotFound: a complete root chain would end in an error "
+                    "instead of stopping at the first unavailable version", site_of(b.span))
+    chk.floor("R7", n, 1, "FileNotFound construction in FilesystemTransport::fetch")
 
 
 def r3_exits(chk, ctx, abb, eq_break):
